@@ -22,6 +22,7 @@ IMPLICIT = '1.2.840.10008.1.2'
 EXPLICIT = '1.2.840.10008.1.2.1'
 BIGEND = '1.2.840.10008.1.2.2'
 CT = '1.2.840.10008.5.1.4.1.1.2'
+FIND = '1.2.840.10008.5.1.4.1.2.1.1'
 NAME_OF = {v: k for k, v in ref_cmd.COMMAND_FIELD.items()}
 
 
@@ -187,7 +188,7 @@ def run_case(case):
             ae.add_scu(svc)
         store_in_file = ae.store_in_file
         get_file = ae.get_file
-    contexts = {pc: asceprovider.PContextDef(pc, uid.UID(sop), uid.UID(ts))}
+    contexts = {pc: asceprovider.PContextDef(pc, uid.UID(sop), uid.UID(ts)), 7: asceprovider.PContextDef(7, uid.UID(FIND), uid.UID(IMPLICIT))}
     ncomp = 0
     keys = 0
     try:
@@ -271,6 +272,26 @@ def run_case(case):
                 except Exception as exc:
                     viol.append((sig + ':raises:' + via, '%s raised %r (%s)' % (via, exc, where)))
                     continue
+                if result is not None and via != 'decoder' and mode != 'memory' and ncomp <= 4:
+                    # after the file-backed message, a message of a class that is kept in memory arrives on the same association
+                    # (through the same state machine): nothing of the first reception may stick to it
+                    raw2 = b'Q' * 33
+                    m2 = msggen.make('CFindRQMessage', sop_class=FIND, msg_id=77, data_set=raw2)
+                    m2.set_length()
+                    before = len(prov.to_service_user.items)
+                    try:
+                        for p2 in m2.encode(7, 40):
+                            prov.primitive = P.PDataTfPDU.decode(p2.encode())
+                            getattr(sm, 'dt_2' if sm.current_state == fsm.States.STA_6 else 'ar_6')()
+                        new = prov.to_service_user.items[before:]
+                        ok2 = (len(new) == 1 and isinstance(new[0], tuple) and type(new[0][0]).__name__ == 'CFindRQMessage' and new[0][1] == 7 and
+                               new[0][0].data_set == raw2)
+                        if not ok2:
+                            viol.append((sig + ':next-message:' + via, 'a C-FIND-RQ (33 data bytes, kept in memory) following the file-backed message on the same '
+                                         'association was delivered as %r (%s)' % ([(type(i[0]).__name__, i[1], type(i[0].data_set).__name__) if isinstance(i, tuple) else i
+                                                                                    for i in new], where)))
+                    except Exception as exc:
+                        viol.append((sig + ':next-message:raises:' + via, 'a C-FIND-RQ following the file-backed message raised %r (%s)' % (exc, where)))
                 if result is None:
                     if not viol:
                         viol.append((sig + ':no-result', 'no message after all fragments (%s)' % where))
